@@ -1,14 +1,14 @@
 (* Codec for tie T's behavioural cross-check: evaluates the GENERATED chain functions (and the specs) on a flat
    integer encoding of a chain, so that harness/chaintie.py can compare them with the real Python properties
    evaluated on real CancelScope objects (extracted to OCaml, and by vm_compute on a sample).
-   scope chain : 0 :: n :: (cancelled shield deadline(-1 = +inf) chandle) * n      innermost first
+   scope chain : 0 :: n :: (cancelled shield deadline(-1 = +inf) chandle hosted) * n   innermost first
    exc chain   : 1 :: n :: (is_cancelled_error has_scope_tag) * n                   the exception first *)
 From AV Require Import Base Machine ChainSpec ChainGen.
 Open Scope Z_scope.
 
 Fixpoint dec_chain (n : nat) (l : list Z) : list scope_rec :=
   match n, l with
-  | S m, a :: b :: d :: h :: r => mkRec (zb a) (zb b) (dz d) (zb h) :: dec_chain m r
+  | S m, a :: b :: d :: h :: o :: r => mkRec (zb a) (zb b) (dz d) (zb h) (zb o) :: dec_chain m r
   | _, _ => []
   end.
 
